@@ -201,3 +201,239 @@ def check_cheb_siblings(prog, rep):
                 'ok' if ok else 'violation',
                 '' if ok else 'the Chebyshev three-term recurrence changed',
                 line=fn.node.lineno, file=mod.path)
+
+
+# ---------------------------------------------------------------------------
+# Rational-function normal forms of straight-line arithmetic (F-inverse)
+from .poly import Poly, ONE as _ONE
+
+
+class Rat:
+    """num / den with Poly parts (no automatic cancellation; equality is
+    decided by cross multiplication)."""
+
+    def __init__(self, num, den=None):
+        self.n = Poly.coerce(num)
+        self.d = Poly.coerce(den) if den is not None else _ONE
+
+    def __add__(self, o):
+        return Rat(self.n * o.d + o.n * self.d, self.d * o.d)
+
+    def __sub__(self, o):
+        return Rat(self.n * o.d - o.n * self.d, self.d * o.d)
+
+    def __mul__(self, o):
+        return Rat(self.n * o.n, self.d * o.d)
+
+    def __truediv__(self, o):
+        return Rat(self.n * o.d, self.d * o.n)
+
+    def __neg__(self):
+        return Rat(-self.n, self.d)
+
+    def eq(self, o):
+        return (self.n * o.d - o.n * self.d).is_zero()
+
+    def key(self):
+        return (self.n.key(), self.d.key())
+
+    def reduced(self):
+        q = self.n.div_exact(self.d)
+        return Rat(q) if q is not None else self
+
+    def __repr__(self):
+        return '(%r)/(%r)' % (self.n, self.d)
+
+
+def rat_eval(node, env):
+    """AST arithmetic -> Rat over atoms; env: name -> Rat.  Raises
+    ValueError on an unsupported construct."""
+    from fractions import Fraction
+    if isinstance(node, ast.Constant) and isinstance(node.value, (int, float)):
+        return Rat(Poly.const(Fraction(node.value).limit_denominator(10**9)))
+    if isinstance(node, ast.Name):
+        if node.id in env:
+            return env[node.id]
+        return Rat(Poly.sym(node.id))
+    if isinstance(node, ast.Attribute):
+        if node.attr == 'pi':
+            return Rat(Poly.sym('pi'))
+        raise ValueError('attribute %s' % node.attr)
+    if isinstance(node, ast.UnaryOp) and isinstance(node.op, (ast.USub,
+                                                              ast.UAdd)):
+        v = rat_eval(node.operand, env)
+        return -v if isinstance(node.op, ast.USub) else v
+    if isinstance(node, ast.BinOp):
+        l, r = rat_eval(node.left, env), rat_eval(node.right, env)
+        if isinstance(node.op, ast.Add):
+            return l + r
+        if isinstance(node.op, ast.Sub):
+            return l - r
+        if isinstance(node.op, ast.Mult):
+            return l * r
+        if isinstance(node.op, ast.Div):
+            return l / r
+        raise ValueError('operator')
+    if isinstance(node, ast.Call):
+        f = node.func
+        name = f.attr if isinstance(f, ast.Attribute) else getattr(f, 'id', '')
+        if name in env and isinstance(env[name], Rat):
+            return env[name]          # opaque local helper, e.g. _get(m, j)
+        if name == 'cos' and len(node.args) == 1:
+            u = rat_eval(node.args[0], env).reduced()
+            if u.n.is_zero():
+                return Rat(1)
+            if u.eq(Rat(Poly.sym('pi'))):
+                return Rat(-1)
+            return Rat(Poly.sym(('cos', u.key(), u)))
+        if name == 'arccos' and len(node.args) == 1:
+            x = rat_eval(node.args[0], env).reduced()
+            q = x.n.div_exact(x.d)
+            if q is not None and len(q.t) == 1:
+                (m, c), = q.t.items()
+                if c == 1 and len(m) == 1 and m[0][1] == 1 and \
+                        isinstance(m[0][0], tuple) and m[0][0][0] == 'cos':
+                    return m[0][0][2]      # arccos(cos(u)) = u on [0, pi]
+            raise ValueError('arccos of a non-cosine')
+        raise ValueError('call %s' % name)
+    raise ValueError(type(node).__name__)
+
+
+def branch_assign(fn_node, kind, target):
+    """The expression assigned to ``target`` in the branch  kind == <kind>."""
+    for node in ast.walk(fn_node):
+        if isinstance(node, ast.If) and isinstance(node.test, ast.Compare) and \
+                isinstance(node.test.left, ast.Name) and \
+                node.test.left.id == 'kind' and \
+                isinstance(node.test.comparators[0], ast.Constant) and \
+                node.test.comparators[0].value == kind:
+            for st in node.body:
+                if isinstance(st, ast.Assign) and \
+                        isinstance(st.targets[0], ast.Name) and \
+                        st.targets[0].id == target:
+                    return st.value
+    return None
+
+
+def check_grid_inverse(prog, rep):
+    """poi_to_ind (before rounding) o ind_to_poi == identity, endpoints."""
+    f_i2p = prog.func('grid.ind_to_poi')
+    f_scale = prog.func('grid.poi_scale')
+    f_p2i = prog.func('grid.poi_to_ind')
+    for kind in ('uni', 'cheb'):
+        ex_x = branch_assign(f_i2p.node, kind, 'X')
+        ex_s = branch_assign(f_scale.node, kind, 'Xsc')
+        ex_i = branch_assign(f_p2i.node, kind, 'I')
+        where = 'grid.ind_to_poi/poi_scale/poi_to_ind'
+        if ex_x is None or ex_s is None or ex_i is None:
+            rep.error('grid maps: branch kind=%r not found' % kind)
+            continue
+        try:
+            X = rat_eval(ex_x, {})
+            Xsc = rat_eval(ex_s, {'X': X})
+            I2 = rat_eval(ex_i, {'Xsc': Xsc})
+        except ValueError as e:
+            rep.unknown('F-inverse', where, 'kind=%s' % kind,
+                        'expression not in the supported fragment: %s' % e)
+            continue
+        ok = I2.eq(Rat(Poly.sym('I')))
+        rep.add('F-inverse', where, 'poi_to_ind(ind_to_poi(I)) == I  '
+                '(kind=%s, before rounding)' % kind,
+                'ok' if ok else 'violation',
+                '' if ok else 'the composition normalises to %r, not to I: '
+                'the index -> point -> index round trip is not the identity'
+                % (I2.reduced(),), line=ex_i.lineno, file=f_p2i.module.path)
+        # endpoints
+        a, b = Rat(Poly.sym('a')), Rat(Poly.sym('b'))
+        lo = rat_eval(ex_x, {'I': Rat(0)})
+        hi = rat_eval(ex_x, {'I': Rat(Poly.sym('n') - 1)})
+        want_lo, want_hi = (a, b) if kind == 'uni' else (b, a)
+        ok = lo.eq(want_lo) and hi.eq(want_hi)
+        rep.add('F-endpoint', 'grid.ind_to_poi', 'index 0 / n-1 map to the '
+                'box ends (kind=%s)' % kind, 'ok' if ok else 'violation',
+                '' if ok else 'index 0 maps to %r and index n-1 to %r'
+                % (lo.reduced(), hi.reduced()), line=ex_x.lineno,
+                file=f_i2p.module.path)
+        # scaling maps the box ends to the canonical ends
+        s_lo = rat_eval(ex_s, {'X': a})
+        s_hi = rat_eval(ex_s, {'X': b})
+        w = (Rat(0), Rat(1)) if kind == 'uni' else (Rat(-1), Rat(1))
+        ok = s_lo.eq(w[0]) and s_hi.eq(w[1])
+        rep.add('F-endpoint', 'grid.poi_scale', 'a / b are scaled to the '
+                'canonical ends (kind=%s)' % kind, 'ok' if ok else 'violation',
+                '' if ok else 'a maps to %r and b to %r'
+                % (s_lo.reduced(), s_hi.reduced()), line=ex_s.lineno,
+                file=f_scale.module.path)
+
+
+# ---------------------------------------------------------------------------
+# T — transfer pattern of "sum of univariate terms" cores
+def _mat_literal(node, env):
+    """np.array([[..],[..]]) / np.array([..]) -> list of rows of Rat."""
+    if isinstance(node, ast.Call) and node.args:
+        node = node.args[0]
+    if not isinstance(node, ast.List):
+        raise ValueError('not a literal')
+    if node.elts and isinstance(node.elts[0], ast.List):
+        return [[_entry(e, env) for e in row.elts] for row in node.elts]
+    return [[_entry(e, env) for e in node.elts]]
+
+
+def _entry(e, env):
+    env = dict(env)
+    env['_get'] = Rat(Poly.sym('g'))
+    return rat_eval(e, env)
+
+
+def check_poly_pattern(prog, rep, qual='tensors.poly'):
+    """first [1, g] ; middle [[1, g], [0, 1]] ; last [g*scale ; scale]:
+    the row vector [1, S] is propagated to [1, S + g] and closed to
+    scale * (S + g)."""
+    fn = prog.func(qual)
+    mod = fn.module
+    lits = []
+    for node in ast.walk(fn.node):
+        if isinstance(node, ast.Assign) and \
+                isinstance(node.targets[0], ast.Subscript) and \
+                isinstance(node.value, ast.Call) and \
+                (prog.dotted(node.value.func) or '').endswith('array'):
+            tgt = paths.src(mod, node.targets[0]).replace(' ', '')
+            try:
+                lits.append((tgt, _mat_literal(node.value, {}), node))
+            except ValueError as e:
+                rep.unknown('T-pattern', qual, paths.src(mod, node), str(e))
+    if len(lits) != 3:
+        rep.error('%s: expected three core literals, found %d'
+                  % (qual, len(lits)))
+        return
+    S = Rat(Poly.sym('S'))
+    g = Rat(Poly.sym('g'))
+    sc = Rat(Poly.sym('scale'))
+    one, zero = Rat(1), Rat(0)
+    first, mid, last = lits[0][1], lits[1][1], lits[2][1]
+    ok1 = len(first) == 1 and len(first[0]) == 2 and first[0][0].eq(one) \
+        and first[0][1].eq(g) and lits[0][0].endswith('[0,m,:]')
+    rep.add('T-pattern', qual, 'first core row [1, g]',
+            'ok' if ok1 else 'violation',
+            '' if ok1 else 'first core is %r stored at %s' % (first,
+                                                              lits[0][0]),
+            line=lits[0][2].lineno, file=mod.path)
+    ok2 = False
+    if len(mid) == 2 and all(len(r) == 2 for r in mid) and \
+            lits[1][0].endswith('[:,m,:]'):
+        r0 = one * mid[0][0] + S * mid[1][0]
+        r1 = one * mid[0][1] + S * mid[1][1]
+        ok2 = r0.eq(one) and r1.eq(S + g)
+    rep.add('T-pattern', qual, 'middle core: [1, S] -> [1, S + g]',
+            'ok' if ok2 else 'violation',
+            '' if ok2 else 'middle transfer matrix %r does not propagate the '
+            'running sum' % (mid,), line=lits[1][2].lineno, file=mod.path)
+    ok3 = False
+    if len(last) == 1 and len(last[0]) == 2 and \
+            lits[2][0].endswith('[:,m,0]'):
+        tot = one * last[0][0] + S * last[0][1]
+        ok3 = tot.eq(sc * (S + g))
+    rep.add('T-pattern', qual, 'last core: [1, S] -> scale * (S + g)',
+            'ok' if ok3 else 'violation',
+            '' if ok3 else 'last core column %r does not close the sum to '
+            'scale * (S + g)' % (last,), line=lits[2][2].lineno, file=mod.path)
